@@ -21,7 +21,7 @@ def arg_expr(ty, k, enums, masks):
     if t == "Option<usize>":
         return "Some(0usize)"
     if t == "implIntoIterator<Item=dr::Operand>":
-        return "vec![rspirv::dr::Operand::LiteralBit32(%d)]" % (900 + k)
+        return "Vec::<rspirv::dr::Operand>::new()"
     if t == "implIntoIterator<Item=spirv::Word>" or t == "implIntoIterator<Item=u32>":
         return "vec![%du32, %du32]" % (100 + k, 200 + k)
     if t in ("implAsRef<[u32]>", "implAsRef<[spirv::Word]>"):
@@ -44,7 +44,14 @@ def arg_expr(ty, k, enums, masks):
     if m:
         name = m.group(2)
         if name in masks:
-            bit = [v for _, v in masks[name]["consts"] if v][0]
+            # a declared bit that takes no parameters (so that an empty additional_params list is conforming)
+            with_params = set()
+            ao = tables.additional_operands_table().get(name)
+            if ao:
+                for names_, _ops in ao["entries"]:
+                    with_params.update(names_)
+            free = [v for n_, v in masks[name]["consts"] if v and bin(v).count("1") == 1 and n_ not in with_params]
+            bit = free[0] if free else 0
             e = "spirv::%s::from_bits(%d).unwrap()" % (name, bit)
         elif name in enums:
             e = "spirv::%s::%s" % (name, enums[name]["variants"][0][0])
@@ -109,7 +116,10 @@ fn setup(state: u32) -> rspirv::dr::Builder {
     o.append("    let mut b = setup(state);")
     o.append("    let before: Vec<(String, usize)> = containers(b.module_ref()).into_iter().map(|(n, v)| (n, v.len())).collect();")
     o.append("    let memmodel_before = b.module_ref().memory_model.is_some();")
-    o.append("    let res: String = match name {")
+    o.append("    let res: String = match call_method(&mut b, name) { Some(r) => r, None => return \"{\\\"error\\\": \\\"unknown or skipped method\\\"}\".to_string() };")
+    TAIL_MARK = len(o)
+    o.append("fn call_method(b: &mut rspirv::dr::Builder, name: &str) -> Option<String> {")
+    o.append("    Some(match name {")
     skipped = []
     seen = set()
     for s in sigs:
@@ -131,8 +141,10 @@ fn setup(state: u32) -> rspirv::dr::Builder {
             continue
         seen.add(s["name"])
         o.append('        "%s" => b.%s(%s).show(),' % (s["name"], s["name"], ", ".join(args)))
-    o.append('        _ => return "{\\"error\\": \\"unknown or skipped method\\"}".to_string(),')
-    o.append("    };")
+    o.append('        _ => return None,')
+    o.append("    })\n}")
+    call_fn = o[TAIL_MARK:]
+    del o[TAIL_MARK:]
     o.append("""    let after = containers(b.module_ref());
     let mut added: Vec<String> = vec![];
     for (n, v) in after.iter() {
@@ -153,6 +165,112 @@ fn setup(state: u32) -> rspirv::dr::Builder {
     }
     format!("{{\\"result\\": {}, \\"sel_f\\": {}, \\"sel_b\\": {}, \\"added\\": [{}]}}", crate::ops::jstr(&res),
         b.selected_function().map_or("null".to_string(), |v| v.to_string()), b.selected_block().map_or("null".to_string(), |v| v.to_string()), added.join(", "))
+}
+""")
+    o.extend(call_fn)
+    o.append("""
+pub fn builder_roundtrip(name: &str) -> String {
+    use rspirv::binary::Assemble;
+    let state = if name == "begin_function" { 0 } else if name == "begin_block" { 1 } else { 2 };
+    let mut b = setup(state);
+    b.set_version(1, 3);
+    let r = match call_method(&mut b, name) { Some(r) => r, None => return "{\\"error\\": \\"unknown or skipped method\\"}".to_string() };
+    if b.selected_block().is_some() { let _ = b.ret(); }
+    if b.selected_function().is_some() { let _ = b.end_function(); }
+    let m = b.module();
+    let words = m.assemble();
+    match rspirv::dr::load_words(&words) {
+        Ok(m2) => {
+            let w2 = m2.assemble();
+            format!("{{\\"result\\": {}, \\"same\\": {}, \\"words\\": {}, \\"words2\\": {}}}", crate::ops::jstr(&r), w2 == words, words.len(), w2.len())
+        }
+        Err(e) => format!("{{\\"result\\": {}, \\"same\\": false, \\"load_error\\": {}}}", crate::ops::jstr(&r), crate::ops::jstr(&format!("{:?}", e))),
+    }
+}
+""")
+    # lift probe: a module holding the instruction of the Builder method named after the opcode, lifted natively
+    import gtables as _g
+    import re as _re
+    def _snake(s_):
+        out_ = []
+        for i_, c_ in enumerate(s_):
+            if c_.isupper():
+                prev = s_[i_ - 1] if i_ > 0 else ""
+                nxt = s_[i_ + 1] if i_ + 1 < len(s_) else ""
+                if i_ > 0 and (prev.islower() or (prev.isupper() and nxt.islower())):
+                    out_.append("_")
+                out_.append(c_.lower())
+            else:
+                out_.append(c_)
+        return "".join(out_)
+    o.append("pub fn lift_probe(opcode: u32) -> String {\n    let name: &str = match opcode {")
+    for e_ in _g.load_tables()["core"]:
+        nm = _snake(e_["opname"])
+        if nm in seen:
+            o.append('        %d => "%s",' % (e_["opcode"], nm))
+    o.append('        _ => return "{\\"error\\": \\"no builder method\\"}".to_string(),\n    };')
+    o.append("""    let mut b = setup(2);
+    b.set_version(1, 3);
+    b.memory_model(spirv::AddressingModel::Logical, spirv::MemoryModel::GLSL450);
+    let r = call_method(&mut b, name);
+    if b.selected_block().is_some() { let _ = b.ret(); }
+    if b.selected_function().is_some() { let _ = b.end_function(); }
+    let m = b.module();
+    let mut ctx_ops = String::new();
+    let res = std::panic::catch_unwind(|| rspirv::lift::LiftContext::convert(&m).map(|sm| format!("{:?}", sm.ops)));
+    match res {
+        Ok(Ok(s)) => ctx_ops = s,
+        Ok(Err(e)) => ctx_ops = format!("Err({:?})", e),
+        Err(_) => ctx_ops = "panic".to_string(),
+    }
+    format!("{{\\"call\\": {}, \\"lifted_ops\\": {}}}", crate::ops::jstr(&format!("{:?}", r)), crate::ops::jstr(&ctx_ops))
+}
+""")
+    # one native assemble per Operand variant
+    import tables as _t
+    from rtok import match_close as _mc, split_commas as _sc
+    o.append("pub fn make_operand(variant: &str, v: u64) -> Result<rspirv::dr::Operand, String> {\n    use rspirv::dr::Operand;\n    let w = v as u32;\n    let op: Operand = match variant {")
+    src_ = _t.src("rspirv/dr/autogen_operand.rs")
+    tk = src_.toks
+    for i in range(len(tk) - 2):
+        if tk[i].v == "enum" and tk[i + 1].v == "Operand" and tk[i + 2].v == "{":
+            k = _mc(tk, i + 2)
+            for item in _sc(tk[i + 3:k]):
+                j = 0
+                while j < len(item) and item[j].v == "#":
+                    j = _mc(item, j + 1) + 1
+                iv = [x.v for x in item[j:]]
+                if len(iv) < 4:
+                    continue
+                ty = "".join(iv[2:-1])
+                name = iv[0]
+                if ty in ("spirv::Word", "u32"):
+                    o.append('        "%s" => Operand::%s(w),' % (name, name))
+                elif ty == "u64":
+                    o.append('        "%s" => Operand::%s(v),' % (name, name))
+                elif ty == "String":
+                    o.append('        "%s" => Operand::%s("ab".to_string()),' % (name, name))
+                elif ty.startswith("spirv::") and ty[7:] in masks:
+                    o.append('        "%s" => match spirv::%s::from_bits(w) { Some(x) => Operand::%s(x), None => return Err("{\\"error\\": \\"undeclared\\"}".to_string()) },' % (name, ty[7:], name))
+                elif ty.startswith("spirv::") and ty[7:] in enums:
+                    o.append('        "%s" => match spirv::%s::from_u32(w) { Some(x) => Operand::%s(x), None => return Err("{\\"error\\": \\"undeclared\\"}".to_string()) },' % (name, ty[7:], name))
+            break
+    o.append('        _ => return Err("{\\"error\\": \\"unknown variant\\"}".to_string()),\n    };\n    Ok(op)\n}')
+    o.append("""
+pub fn assemble_operand(variant: &str, v: u64) -> String {
+    use rspirv::binary::Assemble;
+    match make_operand(variant, v) {
+        Ok(op) => format!("{{\\"words\\": [{}]}}", op.assemble().iter().map(|x| x.to_string()).collect::<Vec<_>>().join(", ")),
+        Err(e) => e,
+    }
+}
+
+pub fn disas_operand(variant: &str, v: u64) -> String {
+    use rspirv::binary::Disassemble;
+    match make_operand(variant, v) {
+        Ok(op) => format!("{{\\"text\\": {}}}", crate::ops::jstr(&op.disassemble())),
+        Err(e) => e,
+    }
 }
 """)
     o.append("pub const SKIPPED_BUILDER_METHODS: &[&str] = &[%s];" % ", ".join('"%s"' % x for x in sorted(set(skipped))))
